@@ -256,6 +256,9 @@ type fctx struct {
 	in          *inst
 	roots       map[string]*structInfo // identifiers that denote (pointers to) structs of this file
 	ptrs        map[string]bool        // other pointer-typed parameters
+	// sliceAlias: locals assigned from a probed slice (calls := mock.calls.Get):
+	// writing calls[i] writes an element of that slice
+	sliceAlias map[string]string
 	// lastType is the declared type of the field the last successful resolve ended at
 	lastType ast.Expr
 }
@@ -510,6 +513,10 @@ func (c *fctx) elementOf(e ast.Expr) *access {
 			cur = t.X
 			continue
 		case *ast.IndexExpr:
+			if id, isID := t.X.(*ast.Ident); isID && c.sliceAlias[id.Name] != "" {
+				// a local that was assigned from a probed slice shares its elements
+				return &access{expr: t, label: c.sliceAlias[id.Name] + "[i]", write: true}
+			}
 			_, label, leaves, sync, ok := c.resolve(t.X)
 			if !ok || sync || leaves != nil || !isArrayOrSliceType(c.lastType) {
 				return nil // in particular a map: m[k] is not addressable, the map itself is the location
@@ -585,6 +592,16 @@ func (c *fctx) stmt(s ast.Stmt) []ast.Stmt {
 	case *ast.AssignStmt:
 		if t.Tok == token.DEFINE && len(t.Lhs) == len(t.Rhs) {
 			for i, r := range t.Rhs {
+				if id, ok := t.Lhs[i].(*ast.Ident); ok && id.Name != "_" {
+					if _, label, leaves, sync, ok := c.resolve(r); ok && !sync && leaves == nil && isSliceType(c.lastType) {
+						if c.sliceAlias == nil {
+							c.sliceAlias = map[string]string{}
+						}
+						c.sliceAlias[id.Name] = label
+					} else if rid, isID := r.(*ast.Ident); isID && c.roots[rid.Name] != nil {
+						c.roots[id.Name] = c.roots[rid.Name] // m := mock
+					}
+				}
 				if u, ok := r.(*ast.UnaryExpr); ok && u.Op == token.AND {
 					if _, _, leaves, sync, ok := c.resolve(u.X); ok && !sync {
 						if id, ok := t.Lhs[i].(*ast.Ident); ok && id.Name != "_" {
@@ -732,18 +749,40 @@ func (c *fctx) stmt(s ast.Stmt) []ast.Stmt {
 		t.List = c.block(t.List)
 		return []ast.Stmt{s}
 	case *ast.ForStmt:
+		var pre []ast.Stmt
+		if t.Init != nil {
+			init := c.stmt(t.Init)
+			pre = append(pre, init[:len(init)-1]...)
+			t.Init = init[len(init)-1]
+		}
 		var acc []access
 		if t.Cond != nil {
 			c.collect(t.Cond, false, &acc)
 		}
-		t.Body.List = append(c.block(t.Body.List), c.probes(acc)...)
-		return append(c.probes(acc), s)
+		// the condition is evaluated before every iteration: its probes stand
+		// before the loop and at the top of the body (where no continue skips
+		// them); what the post statement touches is probed at the end of the body
+		var post []ast.Stmt
+		if t.Post != nil {
+			ps := c.stmt(t.Post)
+			post = ps[:len(ps)-1]
+			t.Post = ps[len(ps)-1]
+		}
+		body := append(c.probes(acc), c.block(t.Body.List)...)
+		t.Body.List = append(body, post...)
+		return append(append(pre, c.probes(acc)...), s)
 	case *ast.RangeStmt:
 		var acc []access
 		c.collect(t.X, false, &acc)
 		t.Body.List = c.block(t.Body.List)
 		return append(c.probes(acc), s)
 	case *ast.SwitchStmt:
+		var pre []ast.Stmt
+		if t.Init != nil {
+			init := c.stmt(t.Init)
+			pre = append(pre, init[:len(init)-1]...)
+			t.Init = init[len(init)-1]
+		}
 		var acc []access
 		if t.Tag != nil {
 			c.collect(t.Tag, false, &acc)
@@ -755,7 +794,7 @@ func (c *fctx) stmt(s ast.Stmt) []ast.Stmt {
 			}
 			cl.Body = c.block(cl.Body)
 		}
-		return append(c.probes(acc), s)
+		return append(append(pre, c.probes(acc)...), s)
 	case *ast.TypeSwitchStmt:
 		for _, cc := range t.Body.List {
 			cl := cc.(*ast.CaseClause)
